@@ -23,14 +23,19 @@ conf = json.load(open(conf_path)) if os.path.exists(conf_path) else {}
 patch = src + "/patch.diff"
 reb = "/tmp/mut/confirm/%s_%s%s.patch.rebased.diff" % (ID, TAG, M)
 use = reb if os.path.exists(reb) and os.path.getsize(reb) > 0 else patch
-assert subprocess.run(["git", "-C", "/repo", "status", "--porcelain", "--untracked-files=no"], capture_output=True, text=True).stdout.strip() == "", "repo dirty"
-r = subprocess.run(["git", "-C", "/repo", "apply", use], capture_output=True, text=True)
+# the change is applied in a scratch worktree of /repo's HEAD (never in /repo itself); VERIF_REPO points the workers at it
+import tempfile
+wt = tempfile.mkdtemp(prefix="seedwt_", dir="/tmp"); os.rmdir(wt)
+subprocess.run(["git", "-C", "/repo", "worktree", "add", "-q", "--detach", wt, "HEAD"], check=True)
 detected = {}
-applied = r.returncode == 0
+applied = False
 try:
+    r = subprocess.run(["git", "-C", wt, "apply", use], capture_output=True, text=True)
+    applied = r.returncode == 0
     if applied:
+        env = dict(os.environ, VERIF_REPO=wt, VERIF_EVIDENCE_DIR=wt + "/.evidence")
         for c in checks:
-            p = subprocess.run(["./check", c, "--tier", "quick"], cwd="/verif", capture_output=True, text=True)
+            p = subprocess.run(["./check", c, "--tier", "quick"], cwd="/verif", capture_output=True, text=True, env=env)
             lines = [l for l in p.stdout.splitlines() if l.startswith("VIOLATION") or l.startswith("  obligation=")]
             obs = sorted({l.split("obligation=")[1].split(" ")[0] + " " + l.split("tag=")[1].split(" detail=")[0][:80]
                           for l in lines if l.startswith("  obligation=")})
@@ -38,7 +43,7 @@ try:
                            "obligations": obs[:6],
                            "inconclusive": sum(1 for l in p.stdout.splitlines() if l.startswith("INCONCLUSIVE"))}
 finally:
-    subprocess.run(["git", "-C", "/repo", "checkout", "--", "."], check=True)
+    subprocess.run(["git", "-C", "/repo", "worktree", "remove", "--force", wt])
 shutil.copy(use, dst + "/patch.diff")
 shutil.copy(src + "/demo.py", dst + "/demo.py")
 out = {
@@ -55,7 +60,7 @@ out = {
         "patch_applies": conf.get("patch_applies") == 0, "tests_exit": conf.get("tests_exit"),
         "tests_tail": conf.get("tests_tail"),
     },
-    "detection": {"patch_applied_to_repo": applied, "checks_run": ["./check %s --tier quick" % c for c in checks],
+    "detection": {"patch_applied_to_scratch_worktree_of_repo_head": applied, "checks_run": ["./check %s --tier quick" % c for c in checks],
                   "result": detected,
                   "detected": any(v["exit"] == 1 for v in detected.values())},
 }
